@@ -1030,6 +1030,43 @@ def gen_generic_read(rng):
     return origin, head + pre + front + b"\\# %d %s\n" % (len(wire) if n is None else n, wire.hex().encode())
 
 
+def gen_multisig_lines(rng, modelled=True):
+    """record lines (relative to the zone origin, explicit owners and TTLs) where one or two owners hold 2-3
+    RRSIGs covering the SAME type (an rrset signed by several keys), interleaved with the covered records,
+    with RRSIGs covering other types and with other owners' records"""
+    lines = []
+    sig_no = [0]
+
+    def sig(owner, covered, ttl):
+        sig_no[0] += 1
+        k = sig_no[0]
+        return b"%s %d IN RRSIG %s %d 2 %d 20260101000000 20250101000000 %d @ %s" % (
+            owner, ttl, covered, rng.choice([8, 13]), ttl, 1000 + 7 * k, [b"AQID", b"BAUG", b"BwgJ", b"CgsM", b"DQ4P", b"EBES", b"ExQV"][k % 7])
+    owners = rng.sample([b"signed", b"www", b"k-1", b"@"], rng.choice([1, 2]))
+    for owner in owners:
+        ttl = rng.choice([300, 3600, 60])
+        covered = rng.choice([b"A", b"TXT", b"MX", b"KEY"] if modelled else [b"DNSKEY", b"A", b"AAAA", b"DS"])
+        data = {b"A": [b"A 192.0.2.%d" % rng.randrange(1, 250) for _ in range(2)],
+                b"TXT": [b"TXT \"one\"", b"TXT \"two\" \"2\""],
+                b"MX": [b"MX 10 mail", b"MX 20 mail2"],
+                b"KEY": [b"KEY 256 3 8 AQID", b"KEY 257 3 8 BAUG"],
+                b"DNSKEY": [b"DNSKEY 256 3 8 AQID", b"DNSKEY 257 3 8 BAUG"],
+                b"AAAA": [b"AAAA 2001:db8::1", b"AAAA 2001:db8::2"],
+                b"DS": [b"DS 12345 8 2 " + b"ab" * 32]}[covered]
+        mine = [b"%s %d IN %s" % (owner, ttl, d) for d in data[:rng.choice([1, 2])]]
+        mine += [sig(owner, covered, ttl) for _ in range(rng.choice([2, 2, 3]))]
+        if rng.random() < 0.6:
+            other = b"NSEC" if covered != b"NSEC" else b"A"
+            mine.append(b"%s %d IN NSEC %s %s RRSIG NSEC" % (owner, ttl, rng.choice([b"@", b"zz"]), covered))
+            mine += [sig(owner, other, ttl) for _ in range(rng.choice([1, 2]))]
+        rng.shuffle(mine)
+        lines += mine
+    lines += [b"plain 300 IN A 192.0.2.%d" % rng.randrange(1, 250), b"mail 300 IN A 192.0.2.9"][:rng.choice([0, 1, 2])]
+    if rng.random() < 0.5:
+        rng.shuffle(lines)              # the owners' records interleaved
+    return lines
+
+
 def mutate_text(rng, text):
     b = bytearray(text)
     if not b:
@@ -1084,6 +1121,15 @@ def rd_key(rd):
         return (0, rd.to_digestable())
     except dns.name.NeedAbsoluteNameOrOrigin:
         return (1, rd.to_digestable(dns.name.root))
+
+
+def nodes_well_formed(z):
+    """one rdataset per (class, type, covers) at every node, no rdata twice"""
+    for node in z.nodes.values():
+        keys = [(int(r.rdclass), int(r.rdtype), int(r.covers)) for r in node.rdatasets]
+        if len(set(keys)) != len(keys):
+            return False
+    return True
 
 
 def zcanon(z):
@@ -1392,6 +1438,25 @@ def cases(ctx):
         if len(files) < 2:
             continue
         yield "respell-include-state", [28, origin, int(rng.random() < 0.5), files, explicit, inlined]
+    # several RRSIGs covering the same type at one owner (an rrset signed by more than one key): read / rrsets
+    # correspondence, write-then-read, record order
+    for i in range(ctx.n(60, 700)):
+        origin, rel, nodes = gen_zone(rng, max_names=1)
+        base = zone_file(rng, origin, rel, nodes, plain=True)
+        modelled = rng.random() < 0.7
+        lines = gen_multisig_lines(rng, modelled)
+        text = base + b"\n".join(lines) + b"\n"
+        if modelled:
+            yield "read", [1, origin, int(rel), 1, text]
+            yield "rrsets", [6, origin, int(rel), text]
+        for _ in range(ctx.n(2, 4)):
+            yield "roundtrip", [20, origin, int(rel), text, rich_style(rng, origin)]
+        for _ in range(ctx.n(2, 4)):
+            other = list(lines)
+            rng.shuffle(other)
+            t2 = base + b"\n".join(other) + b"\n"
+            yield "respell-order", [21, origin, int(rel), text, t2]
+            yield "rrsets-order", [24, origin, int(rel), text, t2]
     # RFC 3597 syntax of wire-modelled known types, well formed and damaged: model correspondence
     for i in range(ctx.n(120, 1500)):
         origin, text = gen_generic_read(rng)
@@ -1536,6 +1601,9 @@ def impl(case):
             if st.nl in (None, "\n"):
                 z2 = dns.zone.from_text(t, origin=oname(case[1]), relativize=bool(case[2]))
                 res.append([int(z2 == z), int(zcanon(z2) == zcanon(z)), t.encode("latin-1", "replace")[:4000]])
+                # the zone read back writes the same text again, and every node holds one rdataset per (type, covers)
+                t2 = z2.to_styled_text(st)
+                res.append([int(t2 == t), int(nodes_well_formed(z) and nodes_well_formed(z2)), t2.encode("latin-1", "replace")[:4000]])
             f = io.BytesIO()
             z.to_file(f, style=st)
             with tempfile.NamedTemporaryFile(delete=False) as tf:
@@ -1750,6 +1818,11 @@ def oracle(ctx, kind, case, out):
             ks = node_kinds(rdss)
             if "C" in ks and "R" in ks:
                 fail("CNAME and other data at one name after loading", sig="cname")
+        # one rdataset per (type, covers) at a name, every record once
+        for n, rdss in out[1]:
+            keys = [(ty, cov) for ty, cov, ttl, rds in rdss]
+            if len(set(keys)) != len(keys):
+                fail("two rdatasets with the same type and covered type at one name after loading", sig="split-rdataset")
         # records outside the origin are ignored
         if out[0] is not None:
             for n, rdss in out[1]:
@@ -1759,8 +1832,17 @@ def oracle(ctx, kind, case, out):
     elif op == 6:
         if not rrsets_exclusive([(n, r[0], r[1], r[2], r[3]) for n, r in out]):
             fail("read_rrsets returned a CNAME together with other data at one owner", sig="rrsets-cname")
+        keys = [(tuple(lower(x) for x in n), r[0], r[1]) for n, r in out]
+        if len(set(keys)) != len(keys):
+            fail("read_rrsets returned two rrsets with the same owner, type and covered type", sig="rrsets-split")
     elif op == 20:
-        for r in out:
+        for i, r in enumerate(out):
+            if len(out) == 5 and i == 1:
+                if not r[0]:
+                    fail("the zone read back is written differently the second time", sig="roundtrip-second-write", style=case[4])
+                if not r[1]:
+                    fail("a node holds two rdatasets with the same type and covered type", sig="split-rdataset", style=case[4])
+                continue
             if not (r[0] and r[1]):
                 fail("zone changed by write-then-read" + ("" if r[0] else " (zones unequal)") + ("" if r[1] else " (records/TTLs differ)"),
                      sig="roundtrip", style=case[4])
